@@ -364,6 +364,10 @@ func (p *Proxy) handleCONNECT(r responder.Responder, proxyReq *http.Request) err
 		if err := p.handleHTTP(exchangeResponder, req); err != nil {
 			slog.Error("Error processing HTTP request in CONNECT tunnel", "host", proxyReq.Host, "error", err)
 		}
+		// The body is part of this exchange. A request answered from the cache is never sent upstream,
+		// so nobody has read it: closing it discards what is left, instead of leaving it in the tunnel's
+		// reader to be parsed as the next request.
+		req.Body.Close()
 	}
 
 	slog.Debug("Exiting CONNECT tunnel", "host", proxyReq.Host)
